@@ -313,11 +313,20 @@ class P:
             self.next()
             tr = []
             d = 0
-            while not (self.peek() == ">" and d == 0):
-                q = self.next()
-                d += (q == "<") - (q == ">")
+            while True:
+                q = self.peek()
+                if q is None:
+                    self.fail("unterminated qualified path")
+                if q == ">" and d == 0:
+                    self.next()
+                    break
+                if q == ">>" and d == 1:
+                    self.next()
+                    tr.append(">")
+                    break
+                self.next()
+                d += (q == "<") - (q == ">") - 2 * (q == ">>")
                 tr.append(q)
-            self.expect(">")
             segs = ["<" + "".join(ty) + " as " + "".join(tr) + ">"]
             return self.path_tail(segs, no_struct)
         if k == "id":
